@@ -108,8 +108,17 @@ func (iloc *itemLoc) Copy(src *itemLoc) {
 	}
 	// NOTE: This trick only works because of the global lock. No reason to lock
 	// src independently of i.
+	//
+	// Without the lock, the item must be read before the loc: a concurrent
+	// Flush() may persist the item (setting src.loc) and a concurrent visit
+	// may then evict it or re-load it without its value (changing
+	// src.item).  An item is only ever evicted or re-loaded after its loc
+	// was set, and the loc is never cleared again, so an item read first
+	// always goes with the loc read after it; the other way round the copy
+	// could end up without a loc and with no (or a value-less) item.
+	item := src.item
 	iloc.loc = src.loc
-	iloc.item = src.item
+	iloc.item = item
 }
 
 const itemLocHdrLength int = 4 + keyPSize + 4 + 4
@@ -228,9 +237,9 @@ func (iloc *itemLoc) read(c *Collection, withValue bool) (icur *Item, err error)
 
 // NumBytes return the number of bytes needed for the collection
 func (iloc *itemLoc) NumBytes(c *Collection) int {
+	i := iloc.Item() // Before the loc, see itemLoc.Copy().
 	loc := iloc.Loc()
 	if loc.isEmpty() {
-		i := iloc.Item()
 		if i == nil {
 			return 0
 		}
